@@ -903,16 +903,12 @@ func (wallet *Wallet) ProcWalletSetPasswd(Passwd *types.ReqWalletSetPasswd) erro
 	if !isValidPassWord(Passwd.NewPass) {
 		return types.ErrInvalidPassWord
 	}
-	//保存钱包的锁状态，需要暂时的解锁，函数退出时再恢复回去
-	tempislock := atomic.LoadInt32(&wallet.isWalletLocked)
+	// The lock flag is read without wallet.mtx by IsWalletLocked/GetWalletStatus, and
+	// ProcWalletLock and the unlock timer write it without the mutex, so it must not be
+	// cleared "temporarily" here: observers saw the wallet unlocked before the old password
+	// was even checked, and a lock or timeout racing with the save/restore left it unlocked
+	// for good. Changing the password only needs the old password, not an unlocked wallet.
 	verifGate(wallet, "setpasswd.loaded")
-	//wallet.isWalletLocked = false
-	atomic.CompareAndSwapInt32(&wallet.isWalletLocked, 1, 0)
-
-	defer func() {
-		//wallet.isWalletLocked = tempislock
-		atomic.CompareAndSwapInt32(&wallet.isWalletLocked, 0, tempislock)
-	}()
 	verifGate(wallet, "setpasswd.tempunlocked")
 
 	// 钱包已经加密需要验证oldpass的正确性
@@ -943,7 +939,10 @@ func (wallet *Wallet) ProcWalletSetPasswd(Passwd *types.ReqWalletSetPasswd) erro
 		return err
 	}
 	//使用old密码解密seed然后用新的钱包密码重新加密seed
-	seed, err := wallet.getSeed(Passwd.OldPass)
+	if has, _ := wallet.walletStore.HasSeed(); !has {
+		return types.ErrSaveSeedFirst
+	}
+	seed, err := GetSeed(wallet.walletStore.GetDB(), Passwd.OldPass)
 	if err != nil {
 		walletlog.Error("ProcWalletSetPasswd", "getSeed err", err)
 		return err
